@@ -612,8 +612,9 @@ def iter_text(expr):
     return norm(e)
 
 
-def returned_list_sources(fn):
-    """What the list a function returns is made of, whatever the spelling (a display / comprehension returned per branch, an accumulator
+def returned_list_sources(fn, value=None, at=None):
+    """(With `value`: what that expression -- a comprehension, a display, tuple(<accumulator>) ... -- is made of, under conditions `at`.)
+    What the list a function returns is made of, whatever the spelling (a display / comprehension returned per branch, an accumulator
     filled with append / extend / += and returned at the end): a set of (conditions, loops, "the item" | "each of", source text), or
     None when a return is not understood.  Conditions and loops are the normalised texts of conds() and of the enclosing for headers."""
     out = set()
@@ -651,9 +652,12 @@ def returned_list_sources(fn):
             out.add((key(cs), loops, "each of", norm(v.args[0])))
             return True
         return False
-    for cs, v, r in returns_with_conds(fn):
+    todo = returns_with_conds(fn) if value is None else [(list(at or []), value, None)]
+    for cs, v, r in todo:
         if v is None:
             return None
+        while isinstance(v, ast.Call) and isinstance(v.func, ast.Name) and v.func.id in ("tuple", "list") and len(v.args) == 1 and isinstance(v.args[0], ast.Name):
+            v = v.args[0]
         if isinstance(v, ast.Name):
             acc = v.id
             inits = [n for n in ast.walk(fn) if isinstance(n, ast.Assign) and len(n.targets) == 1 and is_name(n.targets[0], acc)]
@@ -676,7 +680,8 @@ def returned_list_sources(fn):
                     if not from_value(n.value, c2, loops_of(n, fn)):
                         out.add((key(c2), loops_of(n, fn), "each of", norm(n.value)))
                     seen += 2 if False else 1
-            if seen != len(uses) - (len([r2 for r2 in returns_of(fn) if is_name(r2.value, acc)]) - 1):
+            extra_returns = len([r2 for r2 in returns_of(fn) if is_name(r2.value, acc)]) - 1 if value is None else 0
+            if seen != len(uses) - extra_returns:
                 return None
         elif not from_value(v, cs, ()):
             return None
